@@ -2,4 +2,5 @@ import Driver.Util
 import Driver.Registry
 import Driver.Gated
 import Driver.Dispatch
+import Driver.FileSink
 import Driver.Main
